@@ -27,6 +27,11 @@ def explore(run, driver, budget):
     # one model object polled twice with different frames (a worker that keeps the model): the sums must be those of the second poll
     c11.model_reuse_stage(run, {"quick": 6, "thorough": 200, "search": 30}[budget], props=(PROP,))
     K.explore(run, driver, budget, PROP, RULE)
+    # gaussian: interval columns on the row of their group - structures in which groups with a model of their own and fallback groups
+    # interleave in sort order, outstanding units with high partial counts (a floor that lands on another row shows)
+    from harness.props import c15
+
+    c15.floor_stage(run, {"quick": 60, "thorough": 3000, "search": 400}[budget], PROP)
 
 
 def replay(run, driver, payload):
